@@ -44,7 +44,7 @@ REGISTRY = dict(
 
 KNOWN_MODE_SIG = "squashed-mode-is-tanh-of-mean-not-density-maximiser"
 
-HEADER = """From Coq Require Import Reals List.
+HEADER = """From Coq Require Import Reals List Lia.
 From Interval Require Import Tactic.
 From SB3V Require Import Model.Distributions Proofs.DistributionsProofs.
 Import ListNotations.
@@ -67,7 +67,13 @@ Ltac abs_lse := repeat match goal with |- context [lse ?l] =>
    let L := fresh "L" in let H := fresh "HL" in
    let e := eval cbv [lse sumR map fold_right] in (lse l) in
    interval_intro e as H; change e with (lse l) in H; set (L := lse l) in *; clearbody L end.
-Ltac c14 := unf1; fix_expln; fix_clamp; fix_corr; abs_lse; unf2; repeat split; first [apply Rle_refl | interval | interval with (i_prec 80)].
+Ltac c14 := unf1; fix_expln; fix_clamp; fix_corr; abs_lse; unf2; repeat split; first [lia | apply Rle_refl | interval | interval with (i_prec 80)].
+(* model's argmax / bernoulli_mode evaluated on literals: decide every real comparison with interval *)
+Ltac c14_argmax := unfold multicat_mode; cbv [map split_logits firstn skipn]; unfold argmax;
+   repeat first [ rewrite argmax_from_lt by interval | rewrite argmax_from_ge by (first [apply Rle_refl | interval]) ]; reflexivity.
+Ltac c14_bernmode := unfold bernoulli_mode; cbn [map];
+   repeat match goal with |- context [bern_mode1 ?l] =>
+     first [rewrite (proj1 (bern_mode1_cases l)) by interval | rewrite (proj2 (bern_mode1_cases l)) by interval] end; reflexivity.
 """
 
 FEPS = 2.220446049250313e-16  # th.finfo(float64).eps
@@ -242,10 +248,10 @@ class Out:
             return
         self.goals.append((label, f"Rabs ({expr} - {R(v)}) <= {R(tol(v))}", {"impl": v}))
 
-    def prop_goal(self, label, prop, row=0):
+    def prop_goal(self, label, prop, row=0, tac="c14"):
         if row >= Out.ROW_CAP:
             return
-        self.goals.append((label, prop, {}))
+        self.goals.append((label, prop, {"tac": tac}))
 
     def check(self, ok, sig, msg):
         self.checks += 1
@@ -310,6 +316,33 @@ def run_gauss(c, out):
     out.oracle("gauss-log-prob-from-params", sum(o_normal(mu, math.exp(sg), x) for mu, sg, x in zip(rows_m[0], ls, a2l[0])), lp2l[0])
 
 
+def check_squashed_mode(out, th, name, mode, log_prob, mean_t, std_t):
+    """the property: mode() maximises the action-space density.  Candidates: tanh(mean + k*std) for a grid of k and the
+    true stationary region tanh(mean + 2 std^2).  If some candidate has a larger log_prob, the run is an instance of the
+    known finding exactly when mode() is tanh(mean) (its predicate); any other non-maximising mode is a new violation.
+    A repository whose mode() does maximise is not flagged."""
+    out.checks += 1
+    if not (tuple(mode.shape) == tuple(mean_t.shape) and bool((mode.abs() <= 1).all())):
+        out.problems.append(("oracle-squashed-mode-support", f"{name}: mode() has shape {tuple(mode.shape)} / leaves [-1, 1]"))
+        return
+    lp_mode = log_prob(mode)
+    best = None
+    for k in (-2.0, -1.0, -0.5, 0.5, 1.0, 2.0, None):
+        cand = th.tanh(mean_t + (2 * std_t ** 2 * th.sign(mean_t) if k is None else k * std_t)).clamp(-1 + 1e-9, 1 - 1e-9)
+        lp_c = log_prob(cand)
+        gain = float((lp_c - lp_mode).max())
+        if best is None or gain > best[0]:
+            best = (gain, cand, lp_c)
+    if best[0] > 1e-7:
+        r = int((best[2] - lp_mode).argmax())
+        msg = (f"{name}: log_prob(mode()={mode[r].tolist()}) = {float(lp_mode[r])!r} < log_prob({best[1][r].tolist()}) = {float(best[2][r])!r} "
+               f"(mean {mean_t[r].tolist()}, std {std_t[r].tolist() if std_t.dim() > 1 else std_t.tolist()})")
+        if bool(th.allclose(mode, th.tanh(mean_t), rtol=0, atol=1e-12)):
+            out.problems.append((KNOWN_MODE_SIG, msg + "; mode() = tanh(mean) is the image of the Gaussian mode (the median), not the maximiser of the action-space density"))
+        else:
+            out.problems.append(("oracle-squashed-mode-not-maximiser", msg))
+
+
 def run_squashed(c, out):
     th, D = _imports()
     d, b, ls, eps = c["d"], c["b"], c["log_std"], c["epsilon"]
@@ -333,7 +366,7 @@ def run_squashed(c, out):
                   f"log_prob {lpl[r]!r} vs exact action-space log density {exact!r}: outside the epsilon gap [0, {gap!r}]")
     out.check(dist.entropy() is None, "oracle-squashed-entropy", "entropy() should be None (no analytic form)")
     mode = dist.mode()
-    out.check(bool(th.allclose(mode, th.tanh(mean_t), rtol=0, atol=1e-15)), "oracle-squashed-mode-is-not-tanh-mean", "mode() differs from tanh(mean_actions)")
+    check_squashed_mode(out, th, "SquashedDiagGaussianDistribution", mode, dist.log_prob, mean_t, ls_t.exp().expand_as(mean_t))
     # cached path
     th.manual_seed(c["seed"])
     s = dist.sample()
@@ -355,8 +388,14 @@ def run_squashed(c, out):
                 out.oracle("squashed-cached-vs-recomputed", lpc[r], lpn[r], rel=1e-6)
     th.manual_seed(c["seed"] + 1)
     a2, lp2 = dist.log_prob_from_params(mean_t, ls_t)
-    out.check(th.equal(lp2, dist.log_prob(a2, dist.gaussian_actions)) and th.equal(a2, th.tanh(dist.gaussian_actions)), "oracle-squashed-log-prob-from-params",
-              "log_prob_from_params disagrees with log_prob(sample, cached gaussian sample)")
+    g2 = dist.gaussian_actions
+    out.check(g2 is not None and th.equal(a2, th.tanh(g2)), "oracle-squashed-log-prob-from-params-sample", "log_prob_from_params: returned action is not tanh of the cached pre-squash sample")
+    if g2 is not None:
+        a2l, g2l, lp2l = a2.tolist(), g2.tolist(), lp2.tolist()
+        for r in range(b):
+            if all(abs(x) <= 1 - 1e-9 for x in a2l[r]):
+                want = sum(o_normal(mu, math.exp(sg), u) for mu, sg, u in zip(c["mean"][r], ls, g2l[r])) - sum(math.log(1 - x * x + eps) for x in a2l[r])
+                out.oracle("squashed-log-prob-from-params", want, lp2l[r])
 
 
 def run_categorical(c, out):
@@ -376,6 +415,7 @@ def run_categorical(c, out):
         out.goal("categorical-logprob", f"cat_logprob {RL(l)} {c['actions'][r]}%nat", lp[r].item(), r)
         out.goal("categorical-entropy", f"cat_entropy {RL(l)}", ent[r].item(), r)
         out.prop_goal("categorical-mode", f"max_at {RL(l)} {int(mode[r])}%nat", r)
+        out.prop_goal("categorical-mode-is-model-argmax", f"argmax {RL(l)} = {int(mode[r])}%nat", r, tac="c14_argmax")
         out.oracle("categorical-logprob", l[c["actions"][r]] - o_lse(l), lp[r].item())
         out.oracle("categorical-entropy", o_cat_entropy(l), ent[r].item())
         out.oracle("categorical-total-mass", 1.0, sum(math.exp(x) for x in allp[r]))
@@ -418,6 +458,7 @@ def run_multicat(c, out):
             out.check(p[int(mode[r][i])] >= max(p) - 1e-12, "oracle-multicat-mode-not-maximiser", f"row {r} dim {i}: mode {int(mode[r][i])} is not an argmax of {p}")
         if r < 2:
             out.prop_goal("multicat-mode", " /\\ ".join(f"max_at {RL(p)} {int(mode[r][i])}%nat" for i, p in enumerate(parts)))
+            out.prop_goal("multicat-mode-is-model-argmax", f"multicat_mode {split} = {NL([int(x) for x in mode[r].tolist()])}", r, tac="c14_argmax")
         if enum is not None:
             out.oracle("multicat-total-mass", 1.0, sum(math.exp(x) for x in enum[r]))
             out.oracle("multicat-entropy-is-expectation", -sum(math.exp(x) * x for x in enum[r]), ent[r].item())
@@ -451,6 +492,7 @@ def run_bernoulli(c, out):
         bits = "[" + "; ".join("true" if x else "false" for x in c["actions"][r]) + "]"
         out.goal("bernoulli-logprob", f"bernoulli_logprob {RL(l)} {bits}", lp[r].item(), r)
         out.goal("bernoulli-entropy", f"bernoulli_entropy {RL(l)}", ent[r].item(), r)
+        out.prop_goal("bernoulli-mode-is-model-mode", f"bernoulli_mode {RL(l)} = [" + "; ".join("true" if x else "false" for x in mode[r].tolist()) + "]", r, tac="c14_bernmode")
         out.oracle("bernoulli-logprob", sum(o_bern(x, k) for x, k in zip(l, c["actions"][r])), lp[r].item())
         out.oracle("bernoulli-entropy", sum(o_bern_entropy(x) for x in l), ent[r].item())
         out.oracle("bernoulli-total-mass", 1.0, sum(math.exp(x) for x in enum[r]))
@@ -522,8 +564,10 @@ def run_gsde(c, out):
                 if r < 2:
                     out.goal("gsde-entropy", f"gsde_entropy {R(eps)} {RL(x)} {cols}", ent[r].item(), r)
                 out.oracle("gsde-entropy", sum(o_normal_entropy(s) for s in sig), ent[r].item())
-    want_mode = th.tanh(mean_t) if squash else mean_t
-    out.check(bool(th.allclose(mode, want_mode, rtol=0, atol=1e-15)), "oracle-gsde-mode", "mode() differs from (tanh of) mean_actions")
+    if squash:
+        check_squashed_mode(out, th, "StateDependentNoiseDistribution(squash_output=True)", mode, dist.log_prob, mean_t, dist.distribution.scale)
+    else:
+        out.check(bool(th.allclose(mode, mean_t, rtol=0, atol=1e-15)), "oracle-gsde-mode", "mode() differs from mean_actions")
     if not squash:
         out.check(bool((dist.log_prob(mode) >= lp - 1e-12).all()), "oracle-gsde-mode-not-maximiser", "log_prob(mode) < log_prob(action)")
     # sample = mean + latent @ exploration matrix (one matrix per row when the batch sizes match)
@@ -706,7 +750,8 @@ def run_history(c, out):
             P = op[1]
             a2, lp2 = dist.log_prob_from_params(*args(P))
             a2l, lp2l = a2.tolist(), lp2.reshape(-1).tolist()
-            if fam not in ("squashed", "gsde") or all(abs(x) < 1 - 1e-6 for row in a2l for x in (row if isinstance(row, list) else [row])):
+            squashed_fam = fam == "squashed" or (fam == "gsde" and shape["squash"])
+            if not squashed_fam or all(abs(x) < 1 - 1e-6 for row in a2l for x in (row if isinstance(row, list) else [row])):
                 for r in range(len(lp2l)):
                     f, _, _ = _hist_row(fam, shape, P, r)
                     if fam in ("squashed",) or (fam == "gsde" and shape["squash"]):
@@ -863,10 +908,11 @@ def coq_check_goals(name, goals, shard=60, procs=4):
         with open(path, "w") as fh:
             fh.write(HEADER)
             for i in idxs:
+                tac = goals[i][2].get("tac", "c14")
                 if tolerant:
-                    fh.write(f"Goal {goals[i][1]}.\nProof. first [ solve [c14] | idtac \"C14FAIL {i}\" ]. Abort.\n")
+                    fh.write(f"Goal {goals[i][1]}.\nProof. first [ solve [{tac}] | idtac \"C14FAIL {i}\" ]. Abort.\n")
                 else:
-                    fh.write(f"Goal {goals[i][1]}.\nProof. c14. Qed.\n")
+                    fh.write(f"Goal {goals[i][1]}.\nProof. {tac}. Qed.\n")
         return path
 
     def clean(path):
